@@ -1,8 +1,8 @@
 #!/usr/bin/env bash
 # Regression over every behaviour-preserving patch: every check named for its region must exit 0 without a VIOLATION line.
 cd /verif
-declare -A CH=( [N1]="C01 C02 C12 C15" [N2]="C03 C04 C05 C14" [N3]="C06 C07 C08" [N4]="C10 C11 C19" [N5]="C17 C09 C04 C03" [N6]="C16 C20" [N7]="C15 C12 C14 C01 C09 C04" [N8]="C13 C19 C08 C06 C07 C12" [own]="C03 C04 C05 C14" )
-for k in N1 N2 N3 N4 N5 N6 N7 N8 own; do
+declare -A CH=( [N1]="C01 C02 C12 C15" [N2]="C03 C04 C05 C14" [N3]="C06 C07 C08" [N4]="C10 C11 C19" [N5]="C17 C09 C04 C03" [N6]="C16 C20" [N7]="C15 C12 C14 C01 C09 C04" [N8]="C13 C19 C08 C06 C07 C12" [own]="C03 C04 C05 C14" [M1]="C01 C02 C12 C15" [M2]="C03 C04 C05 C14" [M3]="C06 C07 C08 C10" [M4]="C19 C13 C08 C11" [M5]="C11 C10 C19 C09" [M6]="C16 C20 C12 C01" [M7]="C09 C15 C05 C12 C02 C14" [M8]="C17 C10 C11 C16 C05" )
+for k in N1 N2 N3 N4 N5 N6 N7 N8 own M1 M2 M3 M4 M5 M6 M7 M8; do
   for f in neutral/$k/*.diff; do
     tools/try_neutral.sh $f ${CH[$k]} 2>&1 | grep -E "exit=|^VIOLATION|^UNDECIDED|^CHECKER" | cut -c1-200 | sed "s/^/$k /"
   done
